@@ -532,12 +532,9 @@ private theorem findParentIdx_spec (ci : Nat) (ch : List (List Nat)) (k pi : Nat
       obtain ⟨j, hj, hpi, hmem⟩ := ih (k + 1) h
       exact ⟨j + 1, by simp; omega, by omega, by simpa using hmem⟩
 
-/-- parent/child consistency, proved direction: in a well-formed event with distinct particles, if
-`get_parent(c)` is the particle `p` then `c` is among `get_children(p)`.
-(Full statement also has the converse — `c ∈ get_children(p)` implies `get_parent(c) = p` — which needs the
-uniqueness of the parent index from `WellFormed.flat`; it is not proved here and is covered by the exact run
-and the search oracle.) -/
-theorem C14_parent_child_consistent_partial (e : Ev) (hw : WellFormed e) (hnd : e.all.Nodup) (c p : Nat)
+/-- parent/child consistency, first direction: in a well-formed event with distinct particles, if
+`get_parent(c)` is the particle `p` then `c` is among `get_children(p)` -/
+private theorem parent_imp_child (e : Ev) (hw : WellFormed e) (hnd : e.all.Nodup) (c p : Nat)
     (h : getParent e c = some (some p)) : ∃ kids, getChildren e p = some kids ∧ c ∈ kids := by
   unfold getParent at h
   cases hci : e.all.idxOf? c with
@@ -565,6 +562,91 @@ theorem C14_parent_child_consistent_partial (e : Ev) (hw : WellFormed e) (hnd : 
       rw [List.mem_filterMap]
       refine ⟨ci, ?_, by rw [List.getElem?_eq_getElem hcl, hcv]⟩
       rw [List.getD_eq_getElem?_getD, List.getElem?_eq_getElem hj]; exact hmem
+
+/-- … and the converse: a child of `p` has `p` as its parent, because `WellFormed.flat` makes every index occur in
+exactly one child list -/
+private theorem child_imp_parent (e : Ev) (hw : WellFormed e) (hnd : e.all.Nodup) (c p : Nat) (kids : List Nat)
+    (h : getChildren e p = some kids) (hc : c ∈ kids) : getParent e c = some (some p) := by
+  unfold getChildren at h
+  cases hpi : e.all.idxOf? p with
+  | none => simp [hpi] at h
+  | some pi =>
+    simp only [hpi, Option.some.injEq] at h
+    subst h
+    obtain ⟨ci, hci, hall⟩ := List.mem_filterMap.mp hc
+    obtain ⟨hplt, hpv, _⟩ := List.idxOf?_eq_some_iff.mp hpi
+    have hpl : pi < e.children.length := by rw [hw.lenEq]; exact hplt
+    rw [List.getD_eq_getElem?_getD, List.getElem?_eq_getElem hpl] at hci
+    simp only [Option.getD_some] at hci
+    have hcl : ci < e.all.length := by
+      by_contra hcon
+      rw [List.getElem?_eq_none (by omega)] at hall
+      cases hall
+    have hcv : e.all[ci] = c := by
+      rw [List.getElem?_eq_getElem hcl] at hall; exact Option.some.inj hall
+    have hidx : e.all.idxOf? c = some ci := by
+      rw [List.idxOf?_eq_some_iff]
+      refine ⟨hcl, hcv, ?_⟩
+      intro j' hj' hcon
+      have : j' = ci := (List.Nodup.getElem_inj_iff hnd).mp (by rw [hcon, hcv])
+      omega
+    obtain ⟨pi', hf⟩ := findParentIdx_complete ci e.children 0 pi hpl hci
+    obtain ⟨j, hj, hpij, hmem⟩ := findParentIdx_spec ci e.children 0 pi' hf
+    have hjj : pi' = j := by omega
+    subst hjj
+    have hflat : e.children.flatten.Nodup := (hw.flat.nodup_iff).mpr (List.nodup_range' 1)
+    have heq : pi' = pi := by
+      rcases Nat.lt_trichotomy pi' pi with hlt | heq | hgt
+      · exact absurd hci (flatten_nodup_disjoint _ hflat pi' pi hj hpl hlt ci hmem)
+      · exact heq
+      · exact absurd hmem (flatten_nodup_disjoint _ hflat pi pi' hpl hj hgt ci hci)
+    subst heq
+    unfold getParent
+    simp only [hidx, hf]
+    rw [List.getElem?_eq_getElem hplt, hpv]
+
+/-- Parent, children queries are mutually consistent: in a well-formed event (every event reachable by
+`add_children` is, `C14_history_wellFormed`) with distinct particles, `c ∈ get_children(p)` **iff**
+`get_parent(c) = p`. -/
+theorem C14_parent_child_consistent (e : Ev) (hw : WellFormed e) (hnd : e.all.Nodup) (c p : Nat) :
+    (∃ kids, getChildren e p = some kids ∧ c ∈ kids) ↔ getParent e c = some (some p) :=
+  ⟨fun ⟨kids, h, hc⟩ => child_imp_parent e hw hnd c p kids h hc, parent_imp_child e hw hnd c p⟩
+
+/-- every non-root particle has a parent and roots have none: `get_parent` of the particle at position `i` is
+`None` exactly when `i` is a root position -/
+theorem C14_roots_have_no_parent (e : Ev) (hw : WellFormed e) (hnd : e.all.Nodup) (i : Nat) (hi : i < e.all.length) :
+    (getParent e e.all[i] = some none ↔ i < e.roots.length) := by
+  have hidx : e.all.idxOf? e.all[i] = some i := by
+    rw [List.idxOf?_eq_some_iff]
+    refine ⟨hi, rfl, ?_⟩
+    intro j hj hcon
+    have : j = i := (List.Nodup.getElem_inj_iff hnd).mp hcon
+    omega
+  have hmemflat : i ∈ e.children.flatten ↔ e.roots.length ≤ i := by
+    rw [hw.flat.mem_iff, List.mem_range'_1]
+    have := hw.rootsLe
+    constructor
+    · intro h; exact h.1
+    · intro h; exact ⟨h, by omega⟩
+  unfold getParent
+  simp only [hidx]
+  cases hf : findParentIdx i e.children 0 with
+  | none =>
+    simp only [true_iff]
+    by_contra hcon
+    have : i ∈ e.children.flatten := hmemflat.mpr (by omega)
+    obtain ⟨l, hl, hil⟩ := List.mem_flatten.mp this
+    obtain ⟨j, hj, rfl⟩ := List.getElem_of_mem hl
+    obtain ⟨pi, hpi⟩ := findParentIdx_complete i e.children 0 j hj hil
+    rw [hf] at hpi; cases hpi
+  | some pi =>
+    obtain ⟨j, hj, _, hmem⟩ := findParentIdx_spec i e.children 0 pi hf
+    have : e.roots.length ≤ i := hmemflat.mp (List.mem_flatten.mpr ⟨_, List.getElem_mem hj, hmem⟩)
+    have hpl : pi < e.all.length := by
+      obtain ⟨j', hj', hpij, _⟩ := findParentIdx_spec i e.children 0 pi hf
+      rw [← hw.lenEq]; omega
+    simp only [List.getElem?_eq_getElem hpl, Option.some.injEq, reduceCtorEq, false_iff, not_lt]
+    exact this
 
 /-- non-vacuity: a concrete three-level history builds, is well formed and iterates once over 0..5 -/
 example : (build [0, 1] [(0, [2, 3]), (3, [4]), (1, [5])]).map iter = some [0, 1, 2, 3, 4, 5] := by decide
